@@ -13,6 +13,7 @@ import (
 
 func init() {
 	engines["vc"] = vc.Run
+	replayers["opfunc"] = func(env *core.Env, p *load.Program, prop string, o *core.Obl) { vc.ReplayOp(env, p, prop, o) }
 }
 
 // govc vc [-q] [-dump dir] key... : development entry for the proof tier
@@ -73,6 +74,12 @@ func cmdVC(args []string) int {
 	sort.SliceStable(res.Obls, func(i, j int) bool { return res.Obls[i].Name < res.Obls[j].Name })
 	bad := 0
 	for _, o := range res.Obls {
+		if o.Status == core.Refuted && o.ReplayKind != "" && os.Getenv("REPLAY") != "" {
+			vc.ReplayOp(env, p, "dev", o)
+			if o.Replay != nil {
+				fmt.Printf("  replay %s: confirmed=%v witness=%s\n    %s\n", o.Name, o.Replay.Confirmed, o.Witness, strings.ReplaceAll(o.Replay.Output, "\n", "\n    "))
+			}
+		}
 		if o.Status != core.Discharged {
 			bad++
 			fmt.Printf("  %-12s %-80s %s %.2fs %s\n", o.Status, o.Name, o.Solver, o.TimeS, firstLine(o.Output))
